@@ -1104,10 +1104,18 @@ func (x *Exec) callModular(s *State, fi *FuncInfo, ct *Contract, recv *Term, arg
 	// results
 	var vals []*Term
 	pureVals := (ct.HasAssign && len(ct.Assigns) == 0) || ct.Pure
+	// a callee that promises freshly allocated results returns different references on every call: its reference
+	// results are not functions of the arguments (two identical calls would otherwise share one "fresh" reference)
+	allocates := false
+	for _, en := range ct.Ensures {
+		if strings.Contains(strings.ReplaceAll(en.Text, " ", ""), "fresh(result") {
+			allocates = true
+		}
+	}
 	withEpoch := pureVals && !valueOnly(sig) && !ct.Pure
 	for i := 0; i < sig.Results().Len(); i++ {
 		rt := sig.Results().At(i).Type()
-		if pureVals {
+		if pureVals && !(allocates && !ct.Pure && !valueOnly(types.NewSignatureType(nil, nil, nil, types.NewTuple(sig.Results().At(i)), nil, false))) {
 			// a function of its (value) arguments: the same call yields the same result
 			var as []*Term
 			if recv != nil {
